@@ -373,6 +373,13 @@ def execute(plan, rec):
                     continue
             # shape of bools and residue test (hidden cell set vs visible triple)
             objs, prps, bools = got
+            if rec.want('C14') and objs and prps:
+                import fractions
+                fr = call(lambda d=d: (tuple(d.shape), d.fill_ratio))
+                n_true = sum(sum(r) for r in want[2])
+                rec.check('C14.shape_fill_ratio',
+                          fr.ok and fr.value == ((len(objs), len(prps)), fractions.Fraction(n_true, len(objs) * len(prps))),
+                          lambda i=i, fr=fr: f'slot {i}: shape/fill_ratio {fr.text()} for {want!r}')
             rec.check('C13.bools_shape',
                       len(bools) == len(objs) and all(len(r) == len(prps) for r in bools),
                       lambda got=got: f'slot {i}: ragged {got!r}')
@@ -627,6 +634,20 @@ def _ctx_roundtrip(rec, d, model, defs, models, Context, Definition):
         rec.check('C14.ctx_eq_iff_triples',
                   (ctx == c2.value) is same and (ctx != c2.value) is (not same),
                   lambda: f'context equality wrong for {want!r} vs {m2.triple()!r}')
+    # same names in another order / same cells under other names are different contexts
+    o, p_, b = want
+    variants = []
+    if len(o) > 1:
+        variants.append((o[1:] + o[:1], p_, b[1:] + b[:1]))
+        variants.append((o[1:] + o[:1], p_, b))
+    if len(p_) > 1:
+        variants.append((o, p_[1:] + p_[:1], [r[1:] + r[:1] for r in b]))
+    for vo, vp, vb in variants:
+        other = call(Context, vo, vp, vb)
+        if other.ok:
+            same = (tuple(vo), tuple(vp), [tuple(r) for r in vb]) == want
+            rec.check('C14.ctx_eq_iff_triples', (ctx == other.value) is same and (ctx != other.value) is (not same),
+                      lambda: f'context equality wrong for {want!r} vs {(vo, vp, vb)!r}')
     for name, f in (('shape', lambda x: tuple(x.shape)), ('fill_ratio', lambda x: x.fill_ratio),
                     ('tostring', lambda x: x.tostring()), ('crc32', lambda x: x.crc32()),
                     ('csv', lambda x: x.tostring('csv')), ('cxt', lambda x: x.tostring('cxt'))):
